@@ -21,7 +21,7 @@ def export_xml(tla_path, workdir):
             shutil.copy(os.path.join(srcdir, f), os.path.join(workdir, f))
     out = os.path.join(workdir, "spec.xml")
     with open(out, "w") as fo:
-        r = subprocess.run(["java", "-Xmx6g", "-cp", "/opt/veriftools/tla/tla2tools.jar", "tla2sany.xml.XMLExporter", "-o", "-I", "/opt/veriftools/tla", base],
+        r = subprocess.run(["java", "-Xmx6g", "-Djava.io.tmpdir=" + workdir, "-cp", "/opt/veriftools/tla/tla2tools.jar", "tla2sany.xml.XMLExporter", "-o", "-I", "/opt/veriftools/tla", base],
                            cwd=workdir, stdout=fo, stderr=subprocess.PIPE, text=True)
     if r.returncode != 0 or os.path.getsize(out) < 100:
         sys.stderr.write(r.stderr[-2000:])
